@@ -17,6 +17,14 @@ for d in harness/cmd/*/; do
   x=$(basename "$d")
   (cd harness && go build -tags verif -o ../bin/vxh-"$x" ./cmd/"$x")
 done
-exes=$(sed -n 's/^name = "\(vxdrv_[^"]*\)"/\1/p' lean/lakefile.toml)
-(cd lean && lake build VaxisModel $exes)
+# Lean: every theorem module and driver executable that a registered check uses (a stray helper file
+# that no check imports cannot break the set-up)
+targets=$(python3 -c "
+import sys; sys.path.insert(0, 'checks')
+from propcfg import PROPS
+t = []
+for c in PROPS.values():
+    t += c['modules'] + ['vxdrv_' + d for d in c['drivers']]
+print(' '.join(sorted(set(t))))")
+(cd lean && lake build $targets)
 echo setup-ok
